@@ -1,6 +1,6 @@
 #!/bin/sh
 # runs every claimed quick check (4 at a time), prints id and exit code
-cd /verif
+cd "$(dirname "$0")/.." && mkdir -p .work
 ids=$(python3 -c "import json;print(' '.join(c['property_id'] for c in json.load(open('MANIFEST.json'))['checks']))")
 [ -n "$1" ] && ids="$*"
 echo $ids | tr ' ' '\n' | xargs -P 4 -I{} sh -c './check {} --tier ${VERIF_TIER:-quick} > .work/runall-{}.log 2>&1; echo {} rc=$?'
